@@ -112,6 +112,30 @@ def ident(dd):
     return (pathlib.Path(dd.metadata["path"]).name, int(dd.enum))
 
 
+_ORDER = {}
+
+
+def reader_order(root, fname):
+    """enumerations of one file in the order its afmformats reader yields them (= "file order")"""
+    import afmformats
+    root = pathlib.Path(root)
+    cands = [root] if root.is_file() else [p for p in root.rglob(fname)]
+    cands = [p for p in cands if p.name == fname]
+    if not cands:
+        return None
+    key = (str(cands[0]), cands[0].stat().st_size)
+    if key not in _ORDER:
+        with warnings.catch_warnings():
+            warnings.simplefilter("ignore")
+            try:
+                _ORDER[key] = [int(d.enum) for d in afmformats.load_data(
+                    cands[0], modality="force-distance", meta_override={"spring constant": 0.1, "sensitivity": 5e-8}
+                    if "calibration" in fname else None)]
+            except BaseException:  # noqa
+                _ORDER[key] = None
+    return _ORDER[key]
+
+
 def load_all_ways(ctx, path, expected, meta_override=None, label=""):
     """load a file / folder through every wrapper; returns the (file, enum) sequence of load_data"""
     import nanite
@@ -163,8 +187,10 @@ def load_all_ways(ctx, path, expected, meta_override=None, label=""):
         for f, es in per_file.items():
             if len(set(es)) != len(es):
                 ctx.violation(f"enum-not-unique:{way}", f"{way}: enumerations of {f} are not unique: {es}", rep)
-            if es != sorted(es):
-                ctx.violation(f"not-file-order:{way}", f"{way}: curves of {f} are not in file order: {es}", rep)
+            ref_order = reader_order(path, f)
+            if ref_order is not None and es != ref_order:
+                ctx.violation(f"not-file-order:{way}", f"{way}: curves of {f} come as {es}, the file reader yields "
+                              f"{ref_order}", rep)
         check_progress(ctx, way, cb, rep)
         if meta_override:
             for d in data:
@@ -245,7 +271,7 @@ def loading(ctx):
             seq = [ident(x) for x in data]
             want = []
             for name in order:
-                want += [(name, e) for e in sorted(e for (f, e) in seq if f == name)]
+                want += [(name, e) for e in (reader_order(root, name) or [])]
             if seq != want:
                 ctx.violation("folder-curve-order", "curves of a folder are not grouped per file in file order", rep)
             for name in order:
